@@ -21,10 +21,10 @@ from typing import Optional
 from ..cfg import DataFlow
 from ..model import (AnalysisError, FuncInfo, NotConstant, bind_args, call_name, dotted, fold_constant, kw, last_attr,
                      norm_text, walk_no_nested)
+from ..rules.reductions import SumNorm, _fold
 from ..terms import FlowNormalizer, Poly
 
 MEAS = "abtem.measurements"
-ARRAY_MODULES = {"xp", "np", "cp", "numpy", "cupy", "da"}
 
 
 # ---------------------------------------------------------------------------------------------- helpers
@@ -38,57 +38,6 @@ def _stmt_of(f: FuncInfo, node: ast.AST) -> ast.stmt:
     if best is None:
         raise AnalysisError(f"{f.qualname}: cannot locate the statement of {norm_text(node)[:40]}")
     return best
-
-
-def _fold(e: Optional[ast.expr]):
-    if e is None:
-        return None
-    try:
-        return fold_constant(e)
-    except (NotConstant, Exception):
-        return "?"
-
-
-class SumNorm(FlowNormalizer):
-    """FlowNormalizer with (a) names that have several reaching definitions turned into *versioned* atoms
-    `name@{def nodes}` and (b) `.sum(axes, keepdims=..)` reductions turned into registered atoms."""
-
-    def __init__(self, df, node_idx, **kw_):
-        super().__init__(df, node_idx, **kw_)
-        self.sums: dict[str, dict] = {}
-        self.versions: dict[str, tuple[str, tuple[int, ...]]] = {}
-
-    def _name(self, name: str) -> Poly:
-        rd = self.df.reaching(self._at[-1], name)
-        if len(rd) > 1:
-            ver = tuple(sorted(d.node for d in rd))
-            a = f"{name}@{','.join(map(str, ver))}"
-            self.versions[a] = (name, ver)
-            return Poly.atom(a)
-        return super()._name(name)
-
-    def _call(self, n: ast.Call) -> Poly:
-        if last_attr(n) == "sum" and isinstance(n.func, ast.Attribute):
-            recv = dotted(n.func.value)
-            args = list(n.args)
-            if recv in ARRAY_MODULES:
-                if not args:
-                    raise AnalysisError("sum() without operand")
-                operand, args = args[0], args[1:]
-            else:
-                operand = n.func.value
-            axis = kw(n, "axis") or (args[0] if args else None)
-            keep = kw(n, "keepdims")
-            ax = _fold(axis)
-            if isinstance(ax, int):
-                ax = (ax,)
-            axk = tuple(sorted(ax)) if isinstance(ax, (tuple, list)) and all(isinstance(i, int) for i in ax) else ax
-            kd = _fold(keep) if keep is not None else False
-            op = self.norm(operand)
-            a = f"Σ[{axk};{kd}]({op.key()})"
-            self.sums[a] = {"operand": op, "axes": axk, "keepdims": kd, "node": n}
-            return Poly.atom(a)
-        return super()._call(n)
 
 
 def _strip_reshape(e: ast.expr) -> ast.expr:
